@@ -1451,6 +1451,46 @@ impl Gen {
         self.futs += 1;
         self.futs
     }
+    fn text(&mut self) -> V {
+        let t = self.tok("x");
+        if self.r.chance(1, 6) { V::Text(format!("{}{t}", self.r.pick(HOSTILE))) } else { V::Text(t) }
+    }
+    /// items whose LAST one is text: text, elements and (nested) tuples / Vecs / islands that again end in text
+    fn text_items(&mut self, depth: usize) -> Vec<V> {
+        let n = self.r.below(3);
+        let mut out = vec![];
+        for _ in 0..n {
+            let v = match self.r.below(if depth > 0 { 7 } else { 3 }) {
+                0 | 1 => self.text(),
+                2 => {
+                    let tag = *self.r.pick(&["b", "i", "em"]);
+                    V::El(tag.into(), vec![self.text()])
+                }
+                3 | 4 => V::List(self.text_items(depth - 1)),
+                5 => V::Tup(self.text_items(depth - 1)),
+                _ => V::Island(self.r.chance(1, 2), self.text_items(depth - 1)),
+            };
+            out.push(v);
+        }
+        out.push(self.text());
+        out
+    }
+    /// an element whose children are text nodes next to each other and containers (Vec, tuple, island) that END in
+    /// text, each followed by a text sibling: where the `<!>` separators go is a matter of `Position` (round-5 seed 1)
+    fn text_cluster(&mut self) -> V {
+        let tag = *self.r.pick(&["p", "span", "div"]);
+        let mut kids = vec![];
+        for _ in 0..self.r.range(1, 3) {
+            let items = self.text_items(2);
+            kids.push(match self.r.below(4) {
+                0 | 1 => V::List(items),
+                2 => V::Tup(items),
+                _ => V::Island(self.r.chance(1, 2), items),
+            });
+            kids.push(self.text());
+        }
+        V::El(tag.into(), kids)
+    }
     /// `under`: inside a Suspense (directly awaited); `allow_known`: may produce the known-finding shapes
     fn view(&mut self, depth: usize, max_f: usize, ctx: Ctx, allow_known: bool) -> V {
         let can_async = depth > 0 && self.futs < max_f;
@@ -1459,7 +1499,7 @@ impl Gen {
         }
         self.budget -= 1;
         match self.r.below(if can_async { 16 } else { 4 }) {
-            0 | 1 => self.leaf(),
+            0 | 1 => if self.r.chance(1, 4) { self.text_cluster() } else { self.leaf() },
             2 => {
                 let tag = *self.r.pick(&["div", "section", "p", "span"]);
                 let n = self.r.range(1, 3);
@@ -1819,6 +1859,9 @@ const SHAPES_B: &[&str] = &[
     // text that needs escaping (a <textarea> with `<`, `&`, `</textarea>`, a leading line feed; ordinary text; an attribute
     // value) AFTER a sibling that is still pending and INSIDE content that resolves later (round-4 seed 3)
     "ediv[ s1[ ei[ t7631 ] ] etextarea[ t0a6966203c6220262620633e64207b203c2f74657874617265613e ] Sfb1[ s2[ etextarea[ t3c2f74657874617265613e78 ] ep@223e3c78[ t613c62 ] ] ] ]",
+    // text next to text: Vecs / tuples / islands whose LAST item is text, each followed by a text sibling, next to pending
+    // Suspends and inside content that resolves later (round-5 seed 1)
+    "ediv[ s1[ ei[ t7631 ] ] ep[ l[ t61 t62 ] t63 q[ t64 l[ eb[ t65 ] t66 ] ] t67 I[ t68 ] t69 ] Sfb1[ s2[ ep[ l[ t6a ] t6b ] ] ] ]",
     // … under an inner boundary that is rendered later: what it waits for depends on what had loaded by then
     "ediv[ Sfb1[ s3[ ep[ t7633 ] Sfb2[ gd1[ ei[ t7631 ] go2[ eem[ t7632 ] ] ] ] ] ] ]",
 ];
